@@ -235,8 +235,19 @@ func (o *vxOps) FidDestroy(fid *SrvFid) {
 		o.onDestroy(fid)
 	}
 }
-func (o *vxOps) ConnOpened(c *Conn) { o.opened++ }
-func (o *vxOps) ConnClosed(c *Conn) { o.closed++; vxEvent("connclosed") }
+func (o *vxOps) ConnOpened(c *Conn) {
+	if vxHeldLocks() != 0 {
+		o.lockViol++
+	}
+	o.opened++
+}
+func (o *vxOps) ConnClosed(c *Conn) {
+	if vxHeldLocks() != 0 {
+		o.lockViol++
+	}
+	o.closed++
+	vxEvent("connclosed")
+}
 
 func (o *vxOps) ncalls(op string) int {
 	n := 0
